@@ -1,5 +1,6 @@
 import LoraVerif.Model.Mac
 import LoraVerif.Props.TieA.HandleRx
+import LoraVerif.Props.TieA.HandleRxFull
 import LoraVerif.Gen.SessionStatic
 import LoraVerif.Lemmas.RtLemmas
 /-!
@@ -31,23 +32,25 @@ frame is accepted iff the MIC verifies under the session's NwkSKey and THAT coun
 the answer queue is cleared (Class A only), `fcnt_down` stored, `adr_ack_cnt = 0`, the MAC commands of
 FOpts and of a port-0 payload handled (Class A only), an ACK owed for a confirmed frame,
 `SessionExpired` at `fcnt_up = 0xFFFF_FFFF`, otherwise `fcnt_up + 1`, `DownlinkReceived(fcnt)` and the
-application payload queued iff FPort > 0.  Abstract (hypotheses): parsing / MIC / decryption (inputs),
-`next_lower_datarate` and `handle_downlink_macs` (`hnl`, `hsim`: they simulate the model's and touch only
-the answer queue).  A buffer the parser rejects: `handle_rx_unparsed`.  Proved in
-`Props/TieA/HandleRx.lean` (non-vacuity: the examples there instantiate every hypothesis). -/
-theorem tieA_handle_rx_accept [Gen.SessionRx.MacOps RegionState] (S : List Int → Prop)
-    (hnl : TieA.Rx.NextLowerOk) (hsim : TieA.Rx.MacsOk S)
+application payload queued iff FPort > 0.  Builder S: `handle_downlink_macs` inside is the REGENERATED method
+(`Gen/SessionMacs.lean`, `TieA.Rx.Full.genOps`) on every command stream of octets (`Stream`) — the former
+simulation hypothesis `MacsOk` is a theorem (`TieA.Rx.Full.genOps_ok`, from `C08.tieA_handle_downlink_macs`).
+Abstract: parsing / MIC / decryption of the frame (inputs), the MAC-command iterator (the decoded commands of the
+well-formed prefix), `next_lower_datarate` and the region's methods (the model's).  A buffer the parser rejects:
+`handle_rx_unparsed`.  Proved in `Props/TieA/HandleRx.lean` + `Props/TieA/HandleRxFull.lean` (non-vacuity: the
+examples there instantiate every hypothesis on a frame carrying a LinkADRReq and a DevStatusReq). -/
+theorem tieA_handle_rx_accept
     (D : Int) (gs : Gen.SessionRx.Session) (rs : RegionState) (g : Gen.SessionRx.Configuration)
     (rx : Gen.SessionRx.RadioBuffer) (dl : List Gen.SessionRx.Downlink) (maxp snr : Int) (ign : Bool)
     (e : Gen.SessionRx.EncryptedDataPayload)
     (hparse : rx.as_mut_for_read.parse = some e)
     (hw : TieA.Rx.SessWF gs) (hmax : 0 ≤ maxp ∧ maxp ≤ 255) (hwire : 0 ≤ e.fhdr.fcnt)
     (hdec : ∀ f, Gen.SessionRx.next_fcnt_down gs.fcnt_down e.fhdr.fcnt = some f → e.validate_mic (TieA.Rx.nwkOf gs) f = true →
-      ∃ d, rx.as_mut_for_read.decrypt_in_place (some (TieA.Rx.nwkOf gs)) (some (TieA.Rx.appOf gs)) f = some d ∧ TieA.Rx.DecWF S d) :
-    (Gen.SessionRx.Session.handle_rx D gs rs g rx dl maxp snr ign).bind
+      ∃ d, rx.as_mut_for_read.decrypt_in_place (some (TieA.Rx.nwkOf gs)) (some (TieA.Rx.appOf gs)) f = some d ∧ TieA.Rx.DecWF TieA.Rx.Full.Stream d) :
+    (@Gen.SessionRx.Session.handle_rx RegionState TieA.Rx.Full.genOps D gs rs g rx dl maxp snr ign).bind
         (fun out => (TieA.Rx.respOf out.1).map (fun r => (r, TieA.Rx.sessOf out.2.1, out.2.2.1, TieA.Rx.cfgOf out.2.2.2.1, out.2.2.2.2.2.map TieA.Rx.dlOf)))
       = (sessionHandleRx (TieA.Rx.sessOf gs) (TieA.Rx.cfgOf g) rs (TieA.Rx.dataOf gs e (TieA.Rx.decOf gs rx e)) maxp.toNat snr ign).toOption.map (TieA.Rx.expect dl D) :=
-  TieA.Rx.tieA_handle_rx_accept S hnl hsim D gs rs g rx dl maxp snr ign e hparse hw hmax hwire hdec
+  TieA.Rx.Full.handle_rx_full D gs rs g rx dl maxp snr ign e hparse hw hmax hwire hdec
 
 /-- builder N — a buffer the data-frame parser rejects: `NoUpdate`, every output is the input -/
 theorem tieA_handle_rx_unparsed [Gen.SessionRx.MacOps RegionState]
@@ -57,7 +60,8 @@ theorem tieA_handle_rx_unparsed [Gen.SessionRx.MacOps RegionState]
     Gen.SessionRx.Session.handle_rx D gs rs g rx dl maxp snr ign = some (.NoUpdate, gs, rs, g, rx, dl) :=
   TieA.Rx.handle_rx_unparsed D gs rs g rx dl maxp snr ign hparse
 
-example : @TieA.Rx.NextLowerOk TieA.Rx.exOps ∧ @TieA.Rx.MacsOk TieA.Rx.exOps (· = []) := TieA.Rx.exOps_ok
+/-- builder S: the two former hypotheses are theorems for the regenerated `handle_downlink_macs` -/
+example : @TieA.Rx.NextLowerOk TieA.Rx.Full.genOps ∧ @TieA.Rx.MacsOk TieA.Rx.Full.genOps TieA.Rx.Full.Stream := TieA.Rx.Full.genOps_ok
 
 #print axioms tieA_handle_rx_accept
 #print axioms tieA_handle_rx_unparsed
